@@ -108,10 +108,6 @@ def build_ms(cfg):
 
 # ---------------------------------------------------------------------------------------------------
 # device, simulators
-class _Dut:
-    pass
-
-
 def build_dut(cfg):
     from migen import Module
     from litedram.common import LiteDRAMNativePort
